@@ -47,6 +47,19 @@ fn client_token(c: &ObservableTlsClient) -> String {
     )
 }
 
+/// pool-result token (C10 kind L): endpoints, then the signature fields, then the four JA4 strings, so that
+/// sorting whole tokens never depends on a hash value (equal fields imply equal fingerprints)
+pub fn tls_pool_token(o: &huginn_net_tls::output::TlsClientOutput) -> String {
+    let c = &o.sig;
+    format!(
+        "{}:{}>{}:{}|ver={}|sni={}|alpn={}|ciphers={}|exts={}|sigalgs={}|groups={}|fmts=*|{}|{}|{}|{}",
+        ip_hex(&o.source.ip), o.source.port, ip_hex(&o.destination.ip), o.destination.port, ver(c.version),
+        opt_hex(c.sni.as_ref().map(|x| x.as_bytes())), opt_hex(c.alpn.as_ref().map(|x| x.as_bytes())),
+        csv(&c.cipher_suites), csv(&c.extensions), csv(&c.signature_algorithms), csv(&c.elliptic_curves),
+        esc(c.ja4.full.value()), esc(c.ja4.raw.value()), esc(c.ja4_original.full.value()), esc(c.ja4_original.raw.value())
+    )
+}
+
 pub fn run_tls(cap: usize, evs: &[Ev]) -> String {
     use huginn_net_tls::packet_parser::{parse_packet, IpPacket};
     let mut fl: TtlCache<huginn_net_tls::FlowKey, huginn_net_tls::tls_client_hello_reader::TlsClientHelloReader> = TtlCache::new(cap);
